@@ -57,6 +57,12 @@ func main() {
 		reqsim.ChildMain(os.Args[2], seed)
 		return
 	}
+	if os.Args[1] == "__reqbatch" && len(os.Args) == 5 {
+		var seed int64
+		fmt.Sscan(os.Args[4], &seed)
+		reqsim.BatchMain(os.Args[2], os.Args[3], seed)
+		return
+	}
 	prop := os.Args[1]
 	tier, replay := "", ""
 	for i := 2; i < len(os.Args); i++ {
